@@ -1276,3 +1276,171 @@ Proof.
   eexists _, _, _. split; [reflexivity|]. split; [|apply Permutation_sym; exact P].
   f_equal. unfold zlen. rewrite map_length. apply Permutation_length in P. unfold refs in P. rewrite !map_length in P. lia.
 Qed.
+
+Lemma sim_numann : forall h a ty g r h' mr a' sr, Sim h a -> tyok ty ->
+  mstep h (ONumann ty g r) = (h', mr) -> step a (ONumann ty g r) = (a', sr) -> sr = RUnspec \/ (Sim h' a' /\ accepts sr mr).
+Proof.
+  intros h a ty g r h' mr a' sr HS Hty HM HSp. unfold mstep in HM. cbv beta iota zeta in HM. simpl in HSp.
+  rewrite (proj2 (valid_type_iff ty) Hty) in HSp. simpl in HSp. rewrite (sim_sess _ _ HS) in HSp.
+  destruct (h_sess h) eqn:Eh; simpl in HM, HSp; [|inversion HM; inversion HSp; subst; right; split; [assumption | exact I]].
+  unfold ANnumann in HM. rewrite (file_type_check ty Hty) in HM.
+  destruct (is_data ty) eqn:Ed; simpl in HM, HSp; [|inversion HM; inversion HSp; subst; right; split; [destruct h; assumption | exact I]].
+  unfold ANInumann in HM. destruct (need_tree (h_lib h) ty) as [l1 rt] eqn:En.
+  destruct (need_tree_Good _ _ _ _ (sim_good _ _ HS) Hty En) as [HG1 [[t [-> Ht]] [_ [HR [Hids _]]]]].
+  pose proof (sim_keep h a l1 HS Eh HG1 HR Hids) as HS1.
+  set (p := fun tg rf => (tg =? g) && (rf =? r)).
+  pose proof (tree_filter_perm (hlib h l1) a ty t p HS1 Ht) as P.
+  assert (Hf : filter (fun q => truth (ANInumann_match (e_elmtag (snd q)) (e_elmref (snd q)) g r)) t =
+               filter (fun q => p (e_elmtag (snd q)) (e_elmref (snd q))) t).
+  { apply filter_ext. intros q. destruct (match_truth (e_elmtag (snd q)) (e_elmref (snd q)) g r) as [_ A]. rewrite A. unfold p. apply andb_comm. }
+  rewrite Hf in HM.
+  assert (Hc : zlen (filter (fun q => p (e_elmtag (snd q)) (e_elmref (snd q))) t) = zlen (on_target ty g r (anns a))).
+  { apply Permutation_length in P. unfold refs in P. rewrite !map_length in P. unfold zlen, on_target. fold p. 
+    change (filter (fun a0 => (a_ttag a0 =? g) && (a_tref a0 =? r)) (of_type ty (anns a))) with (filter (fun x => p (a_ttag x) (a_tref x)) (of_type ty (anns a))). lia. }
+  rewrite Hc in HM.
+  assert (Hn : (zlen (on_target ty g r (anns a)) =? FAILV) = false) by (apply Z.eqb_neq; unfold zlen, FAILV; lia).
+  rewrite Hn in HM. inversion HM; inversion HSp; subst. right. split; [assumption|]. simpl. split; [left; reflexivity | constructor].
+Qed.
+
+Lemma create_tree_ret : forall s ty s' n, ANIcreate_ann_tree s ty = (s', n) -> n <> FAILV -> n = l_num s' ty.
+Proof.
+  intros s ty s' n H Hn. unfold ANIcreate_ann_tree in H. destruct (l_num s ty =? -1); simpl in H; [|inversion H; subst; reflexivity].
+  destruct (atype2tag ty); [|inversion H; subst; contradiction].
+  destruct (load_tree _ _ _ _); inversion H; subst; [simpl; rewrite upd_same; reflexivity | contradiction].
+Qed.
+
+Lemma sim_load : forall h a ty l1 n, Sim h a -> h_sess h = true -> tyok ty -> ANIcreate_ann_tree (h_lib h) ty = (l1, n) ->
+  Sim (hlib h l1) a /\ n = zlen (of_type ty (anns a)) /\ n <> FAILV.
+Proof.
+  intros h a ty l1 n HS Eh Hty Hc.
+  destruct (create_tree_Good _ _ _ _ (sim_good _ _ HS) Hty Hc) as [HG1 [Hn [_ [HR [[t Ht] [_ [Hat _]]]]]]].
+  pose proof (sim_keep h a l1 HS Eh HG1 HR (ids_preserved _ _ (proj1 (sim_good _ _ HS)) Hat)) as HS1.
+  split; [assumption|]. split; [|assumption].
+  rewrite (create_tree_ret _ _ _ _ Hc Hn). rewrite (tf_num _ (proj2 HG1) _ _ Ht). apply (tree_count (hlib h l1) a ty t HS1 Ht).
+Qed.
+
+Lemma sim_fileinfo : forall h a h' mr a' sr, Sim h a ->
+  mstep h OFileInfo = (h', mr) -> step a OFileInfo = (a', sr) -> sr = RUnspec \/ (Sim h' a' /\ accepts sr mr).
+Proof.
+  intros h a h' mr a' sr HS HM HSp. unfold mstep in HM. cbv beta iota zeta in HM. simpl in HSp. rewrite (sim_sess _ _ HS) in HSp.
+  destruct (h_sess h) eqn:Eh; simpl in HM, HSp; [|inversion HM; inversion HSp; subst; right; split; [assumption | exact I]].
+  unfold ANfileinfo in HM.
+  destruct (ANIcreate_ann_tree (h_lib h) AN_FILE_LABEL) as [l1 n1] eqn:E1.
+  destruct (sim_load h a _ _ _ HS Eh tyok_fl E1) as [S1 [C1 N1]].
+  destruct (n1 =? FAILV) eqn:F1; [apply Z.eqb_eq in F1; contradiction|].
+  destruct (ANIcreate_ann_tree l1 AN_FILE_DESC) as [l2 n2] eqn:E2.
+  destruct (sim_load (hlib h l1) a _ _ _ S1 Eh tyok_fd E2) as [S2 [C2 N2]].
+  destruct (n2 =? FAILV) eqn:F2; [apply Z.eqb_eq in F2; contradiction|].
+  destruct (ANIcreate_ann_tree l2 AN_DATA_LABEL) as [l3 n3] eqn:E3.
+  destruct (sim_load (hlib (hlib h l1) l2) a _ _ _ S2 Eh tyok_dl E3) as [S3 [C3 N3]].
+  destruct (n3 =? FAILV) eqn:F3; [apply Z.eqb_eq in F3; contradiction|].
+  destruct (ANIcreate_ann_tree l3 AN_DATA_DESC) as [l4 n4] eqn:E4.
+  destruct (sim_load (hlib (hlib (hlib h l1) l2) l3) a _ _ _ S3 Eh tyok_dd E4) as [S4 [C4 N4]].
+  destruct (n4 =? FAILV) eqn:F4; [apply Z.eqb_eq in F4; contradiction|].
+  inversion HM; inversion HSp; subst h' mr a' sr. right. split; [exact S4|]. simpl. split; [left; congruence | constructor].
+Qed.
+
+Lemma type_switch_agree : forall g, zassoc g ANtagref2id_type_switch = type_of_tag g.
+Proof.
+  intros g. unfold type_of_tag, ANtagref2id_type_switch. simpl.
+  destruct (g =? 104) eqn:E1; [apply Z.eqb_eq in E1; subst; reflexivity|].
+  destruct (g =? 105) eqn:E2; [apply Z.eqb_eq in E2; subst; reflexivity|].
+  destruct (g =? 100) eqn:E3; [apply Z.eqb_eq in E3; subst; reflexivity|].
+  destruct (g =? 101) eqn:E4; [apply Z.eqb_eq in E4; subst; reflexivity|].
+  unfold DFTAG_DIL, DFTAG_DIA, DFTAG_FID, DFTAG_FD. rewrite E1, E2, E3, E4. reflexivity.
+Qed.
+Lemma type_of_tag_ok : forall g ty, type_of_tag g = Some ty -> tyok ty /\ g = tag_of_type ty.
+Proof.
+  intros g ty H. rewrite <- type_switch_agree in H. pose proof (tagref2id_type_ok _ _ H) as T. split; [assumption|].
+  unfold ANtagref2id_type_switch in H. simpl in H.
+  repeat match type of H with context [?x =? ?y] => destruct (Z.eqb_spec x y); [subst; inversion H; subst; reflexivity|] end. discriminate.
+Qed.
+
+Lemma sim_bind : forall h a l1 slot id ty ref, Sim (hlib h l1) a -> tyok ty -> ANid2tagref l1 id = Some (tag_of_type ty, ref) ->
+  Sim (hset h l1 slot id) (mkstate (anns a) (slot_set slot (ty, ref) (slots a)) (sess a)).
+Proof.
+  intros h a l1 slot id ty ref HS T B. constructor; simpl; try apply HS.
+  apply srel_bind; [apply (sim_slots _ _ HS) | assumption | assumption].
+Qed.
+Lemma sim_unbind' : forall h a l1 slot, Sim (hlib h l1) a ->
+  Sim (hset h l1 slot FAILV) (mkstate (anns a) (slot_clear slot (slots a)) (sess a)).
+Proof.
+  intros h a l1 slot HS. constructor; simpl; try apply HS. apply srel_unbind. apply (sim_slots _ _ HS).
+Qed.
+
+Lemma sim_tagref2id : forall h a slot g r h' mr a' sr, Sim h a -> u16 r ->
+  mstep h (OTagref2id slot g r) = (h', mr) -> step a (OTagref2id slot g r) = (a', sr) -> sr = RUnspec \/ (Sim h' a' /\ accepts sr mr).
+Proof.
+  intros h a slot g r h' mr a' sr HS Hr HM HSp. unfold mstep in HM. cbv beta iota zeta in HM. simpl in HSp. rewrite (sim_sess _ _ HS) in HSp.
+  destruct (h_sess h) eqn:Eh; simpl in HM, HSp.
+  2:{ inversion HM; inversion HSp; subst. right. split; [|exact I]. pose proof (sim_unbind h a slot HS) as X. rewrite (sim_sess _ _ HS), Eh in X. exact X. }
+  unfold ANtagref2id in HM. rewrite type_switch_agree in HM.
+  destruct (type_of_tag g) as [ty|] eqn:Eg.
+  2:{ inversion HM; inversion HSp; subst. right. simpl. split; [|exact I]. pose proof (sim_unbind h a slot HS) as X. rewrite (sim_sess _ _ HS), Eh in X. exact X. }
+  destruct (type_of_tag_ok _ _ Eg) as [Hty ->].
+  destruct (need_tree (h_lib h) ty) as [l1 rt] eqn:En.
+  destruct (need_tree_Good _ _ _ _ (sim_good _ _ HS) Hty En) as [HG1 [[t [-> Ht]] [_ [HR [Hids _]]]]].
+  pose proof (sim_keep h a l1 HS Eh HG1 HR Hids) as HS1.
+  destruct (tree_repr _ _ _ HG1 Ht) as [P1 P2]. destruct (inv_tree _ (proj1 HG1) ty t Ht) as [_ [Hs _]].
+  destruct (tfind (AN_CREATE_KEY ty r) t) as [e|] eqn:Ef.
+  - apply tfind_In in Ef. destruct (P1 _ _ Ef) as [K [x [X1 [X2 _]]]].
+    destruct (inv_tree _ (proj1 HG1) ty t Ht) as [_ [_ Hent]]. destruct (Hent _ _ Ef) as [Rr _]. rewrite MAX_REF_val in Rr.
+    apply key_inj in K; try (unfold tyok in Hty; unfold u16 in Hr; lia). destruct K as [_ K]. rewrite <- K in X2.
+    assert (L : lookup (ty, r) (anns a) = Some x).
+    { rewrite <- X2. apply In_lookup; [apply (sim_nodup _ _ HS) | apply (sim_repr _ _ HS1); assumption]. }
+    rewrite L in HSp. destruct (entry_id l1 ty t _ e (proj1 HG1) Ht Ef) as [B [_ Hpos]]. rewrite <- K in B.
+    assert (Hnf : (e_id e =? FAILV) = false) by (apply Z.eqb_neq; unfold FAILV; lia).
+    inversion HM; inversion HSp; subst h' mr a' sr. rewrite Hnf. right. split; [|simpl; split; [left; reflexivity | constructor]].
+    pose proof (sim_bind h a l1 slot (e_id e) ty r HS1 Hty B) as X. rewrite (sim_sess _ _ HS), Eh in X. exact X.
+  - assert (L : lookup (ty, r) (anns a) = None).
+    { destruct (lookup (ty, r) (anns a)) as [x|] eqn:L; [|reflexivity]. exfalso. apply lookup_In in L. destruct L as [L1 L2].
+      apply (sim_repr _ _ HS1) in L1. destruct (P2 x L1 ltac:(rewrite L2; reflexivity)) as [e [E1 _]]. rewrite L2 in E1. simpl in E1.
+      apply (In_tfind _ _ _ (tsorted_NoDup _ Hs)) in E1. congruence. }
+    rewrite L in HSp. inversion HM; inversion HSp; subst h' mr a' sr. right. simpl. split; [|exact I].
+    pose proof (sim_unbind' h a l1 slot HS1) as X. rewrite (sim_sess _ _ HS), Eh in X. exact X.
+Qed.
+
+Lemma sim_select : forall h a slot ty idx x0 h' mr a' sr, Sim h a -> tyok ty ->
+  mstep h (OSelect slot ty idx x0) = (h', mr) -> step a (OSelect slot ty idx (ref_of mr)) = (a', sr) ->
+  sr = RUnspec \/ (Sim h' a' /\ accepts sr mr).
+Proof.
+  intros h a slot ty idx x0 h' mr a' sr HS Hty HM HSp. unfold mstep in HM. cbv beta iota zeta in HM. simpl in HSp. rewrite (sim_sess _ _ HS) in HSp.
+  destruct (h_sess h) eqn:Eh; simpl in HM, HSp.
+  2:{ inversion HM; inversion HSp; subst. right. split; [|exact I]. pose proof (sim_unbind h a slot HS) as X. rewrite (sim_sess _ _ HS), Eh in X. exact X. }
+  rewrite (proj2 (valid_type_iff ty) Hty) in HSp. simpl in HSp.
+  destruct (ANselect (h_lib h) idx ty) as [l1 id] eqn:Es. inversion HM; subst h' mr; clear HM. unfold ANselect in Es.
+  destruct (need_tree (h_lib h) ty) as [l0 rt] eqn:En.
+  destruct (need_tree_Good _ _ _ _ (sim_good _ _ HS) Hty En) as [HG1 [[t [-> Ht]] [_ [HR [Hids _]]]]].
+  pose proof (sim_keep h a l0 HS Eh HG1 HR Hids) as HS1.
+  pose proof (tf_num _ (proj2 HG1) _ _ Ht) as Hnum. pose proof (tree_count (hlib h l0) a ty t HS1 Ht) as Hcnt.
+  unfold ANselect_index_ok, truth in Es. rewrite Hnum in Es.
+  destruct (0 <=? idx) eqn:E0; destruct (idx <? zlen t) eqn:E1; simpl in Es.
+  - apply Z.leb_le in E0. apply Z.ltb_lt in E1.
+    unfold tindex in Es. replace (idx + 1 <? 1) with false in Es by (symmetry; apply Z.ltb_ge; lia).
+    replace (idx + 1 - 1) with idx in Es by lia.
+    destruct (nth_error t (Z.to_nat idx)) as [[k e]|] eqn:En2.
+    2:{ apply nth_error_None in En2. unfold zlen in E1. lia. }
+    simpl in Es. inversion Es; subst l1 id; clear Es. apply nth_error_In in En2.
+    destruct (entry_id l0 ty t k e (proj1 HG1) Ht En2) as [B [_ Hpos]].
+    unfold ptagref in *. replace (e_id e =? FAILV) with false in * by (symmetry; apply Z.eqb_neq; unfold FAILV; lia).
+    rewrite B in *. simpl in HSp.
+    replace ((idx <? 0) || (zlen (of_type ty (anns a)) <=? idx)) with false in HSp
+      by (symmetry; apply orb_false_iff; split; [apply Z.ltb_ge | apply Z.leb_gt]; lia).
+    destruct (tree_repr _ _ _ HG1 Ht) as [P1 _]. destruct (P1 _ _ En2) as [_ [x [X1 [X2 _]]]].
+    assert (L : lookup (ty, e_annref e) (anns a) = Some x).
+    { rewrite <- X2. apply In_lookup; [apply (sim_nodup _ _ HS) | apply (sim_repr _ _ HS1); assumption]. }
+    rewrite L in HSp. inversion HSp; subst a' sr. right. split; [|simpl; split; [left; reflexivity | constructor]].
+    pose proof (sim_bind h a l0 slot (e_id e) ty (e_annref e) HS1 Hty B) as X. rewrite (sim_sess _ _ HS), Eh in X. exact X.
+  - inversion Es; subst l1 id. unfold ptagref in *. simpl in *. apply Z.ltb_ge in E1.
+    replace ((idx <? 0) || (zlen (of_type ty (anns a)) <=? idx)) with true in HSp
+      by (symmetry; apply orb_true_iff; right; apply Z.leb_le; lia).
+    inversion HSp; subst. right. split; [|exact I]. pose proof (sim_unbind' h a l0 slot HS1) as X. rewrite (sim_sess _ _ HS), Eh in X. exact X.
+  - inversion Es; subst l1 id. unfold ptagref in *. simpl in *. apply Z.leb_gt in E0.
+    replace ((idx <? 0) || (zlen (of_type ty (anns a)) <=? idx)) with true in HSp
+      by (symmetry; apply orb_true_iff; left; apply Z.ltb_lt; lia).
+    inversion HSp; subst. right. split; [|exact I]. pose proof (sim_unbind' h a l0 slot HS1) as X. rewrite (sim_sess _ _ HS), Eh in X. exact X.
+  - inversion Es; subst l1 id. unfold ptagref in *. simpl in *. apply Z.leb_gt in E0.
+    replace ((idx <? 0) || (zlen (of_type ty (anns a)) <=? idx)) with true in HSp
+      by (symmetry; apply orb_true_iff; left; apply Z.ltb_lt; lia).
+    inversion HSp; subst. right. split; [|exact I]. pose proof (sim_unbind' h a l0 slot HS1) as X. rewrite (sim_sess _ _ HS), Eh in X. exact X.
+Qed.
